@@ -29,7 +29,7 @@ Notation reset := (@reset A D cast).
 Notation readrange_scalar := (@readrange_scalar A D zeroA).
 Notation readrange_tensor := (@readrange_tensor A D zeroA).
 Notation writerange_scalar := (@writerange_scalar A D cast promote zeroA).
-Notation writerange_tensor := (@writerange_tensor A D D_eqb zeroA).
+Notation writerange_tensor := (@writerange_tensor A D cast D_eqb zeroA).
 
 (* ------------------------------------------------------------------ well-formedness *)
 Definition rows (s : ring) : list (list A) :=
@@ -742,7 +742,7 @@ Proof.
   intros Hwf Hf len Hlen. pose proof Hwf as (Hn & Hp & Hst).
   unfold full in Hf. unfold writerange_tensor. fold len. unfold rows at 1 2.
   destruct (st s) as [| |d sh rw] eqn:Est; try contradiction.
-  exists d, sh. split; [reflexivity|]. intros Hrect Hsh Hosh Hd. rewrite Hsh, Hosh, Hd. cbn [negb].
+  exists d, sh. split; [reflexivity|]. intros Hrect Hsh Hosh Hd. rewrite Hsh, Hosh, Hd. cbn [negb]. cbv zeta.
   replace (N s <? len) with false by (symmetry; apply Nat.ltb_ge; lia).
   pose proof (scatter_spec s (fun e => shift_off (nth e offs 0%Z) len fwd)
                 (fun e j => nth j (nth e (rcols r) []) zeroA) (N s) (nel sh) Hwf eq_refl len rw ltac:(lia) Hrect)
@@ -845,12 +845,26 @@ Proof.
   - (* writerange tensor *)
     unfold Ring.writerange_tensor in Hs. destruct (st s) as [| |d sh rw] eqn:Est; try discriminate.
     repeat match type of Hs with context [if ?c then _ else _] => destruct c; try discriminate end.
-    injection Hs as <- _. unfold wf, set_st; cbn [N ptr st].
-    split; [split; [exact Hn|split; [exact Hp|]]|reflexivity].
-    match goal with |- length (fold_left ?f ?jj ?l) = _ =>
+    all: injection Hs as <- _; unfold wf, set_st; cbn [N ptr st].
+    all: split; [split; [exact Hn|split; [exact Hp|]]|reflexivity].
+    all: match goal with |- length (fold_left ?f ?jj ?l) = _ =>
       assert (Hgen : forall js0 l0, length (fold_left f js0 l0) = length l0) end.
-    { intros js0. induction js0 as [|[j e] js0 IH]; intros l0; cbn [fold_left]; auto. rewrite IH, upd_length. reflexivity. }
-    rewrite Hgen. exact Hst.
+    all: try (intros js0; induction js0 as [|[j e] js0 IH]; intros l0; cbn [fold_left]; auto; rewrite IH, upd_length; reflexivity).
+    all: rewrite Hgen; exact Hst.
+Qed.
+
+(* a range of another data type is first converted to the storage's own type: writing it equals writing the
+   converted range (declared with the storage's type), on every state; nothing else about the write changes *)
+Theorem writerange_tensor_converts s r offs osh fwd inplace d sh rw :
+  st s = SFull d sh rw -> D_eqb d (rdt r) = false -> D_eqb d d = true ->
+  writerange_tensor s r offs osh fwd inplace
+  = writerange_tensor s (mkRng d (rshape r) (map (map (cast d)) (rcols r))) offs osh fwd inplace.
+Proof.
+  intros Est Hne Hrefl. unfold Ring.writerange_tensor. rewrite Est. cbn [rdt rshape rcols].
+  rewrite Hne, Hrefl.
+  assert (Hlen : range_len (mkRng d (rshape r) (map (map (cast d)) (rcols r))) = range_len r).
+  { unfold range_len. cbn [rcols]. destruct (rcols r) as [|c cs]; cbn [map]; [reflexivity|apply map_length]. }
+  rewrite Hlen. reflexivity.
 Qed.
 
 (* every reachable state is well formed and the record size never changes *)
